@@ -1,5 +1,6 @@
 import ComposeVerif.Model.Pipeline
 import ComposeVerif.Props.C08Tree
+import ComposeVerif.Lemmas.C08Canonical
 /-!
 # C08 — the composed pipeline (round 6)
 
@@ -19,7 +20,9 @@ unicity per document, then defaults → validation → paths → environment →
 * interpolation off ignores the interpolation options altogether (`load_off_ignores_interp_options`);
 * interpolation on ≡ off (`load_on_eq_off`): for documents without `$` and without a string on a cast row the two loads can
   differ only through `transform.Canonical(dict, opts.SkipInterpolation)`, which is handed the same flag — stated through
-  `loadG`, the same pipeline with that second use of the flag made a parameter (`load_eq_loadG`).
+  `loadG`, the same pipeline with that second use of the flag made a parameter (`load_eq_loadG`);
+* on `load` itself (`load_on_ok_imp_off_ok`): such documents that load with interpolation on load with `SkipInterpolation`
+  to the same model, because `Canonical`'s flag only forgives (`Lemmas/C08Canonical.canonical_mono`, over C03's model).
 -/
 namespace CV.Pipeline
 open CV CV.Interp CV.TPath
@@ -294,6 +297,81 @@ theorem load_on_eq_off (ign : Bool) (c : Cfg) (docs : List Val.KVs)
     loadG ign (withSkip false c) docs = loadG ign (withSkip true c) docs := by
   simp only [loadG, processDocsG_on_off ign c docs (.map []) h]
   rfl
+
+
+/-! ### on loads ⇒ off loads the same model (the flag of `Canonical` only forgives: `Lemmas/C08Canonical.lean`) -/
+
+theorem Out.bind_ok {α β : Type} (o : Out α) (f : α → Out β) (b : β) (h : o.bind f = .ok b) :
+    ∃ a, o = .ok a ∧ f a = .ok b := by
+  cases o with
+  | ok a => exact ⟨a, rfl, h⟩
+  | err e => simp [Out.bind] at h
+  | panic e => simp [Out.bind] at h
+
+theorem mergeStagesG_mono (c : Cfg) (dict : Val) (cfg : Val.KVs) (r : Val)
+    (h : mergeStagesG false c dict cfg = .ok r) : mergeStagesG true c dict cfg = .ok r := by
+  unfold mergeStagesG at h ⊢
+  obtain ⟨d1, h1, h⟩ := Out.bind_ok _ _ _ h
+  obtain ⟨d2, h2, h⟩ := Out.bind_ok _ _ _ h
+  obtain ⟨d3, h3, h⟩ := Out.bind_ok _ _ _ h
+  obtain ⟨d4, h4, h⟩ := Out.bind_ok _ _ _ h
+  have h4' : Short.canonical false d3 = .ok d4 := by
+    cases hc : Short.canonical false d3 with
+    | ok x => rw [hc] at h4; simp only [ofShort, Out.ok.injEq] at h4; rw [h4]
+    | err e => rw [hc] at h4; simp [ofShort] at h4
+    | panic e => rw [hc] at h4; simp [ofShort] at h4
+  rw [h1]; simp only [Out.bind]
+  rw [h2]; simp only [Out.bind]
+  rw [h3]; simp only [Out.bind]
+  rw [Short.canonical_mono d3 d4 h4']; simp only [ofShort, Out.bind]
+  exact h
+
+theorem processDocG_mono (c : Cfg) (dict : Val) (cfg : Val.KVs) (r : Val)
+    (h : processDocG false c dict cfg = .ok r) : processDocG true c dict cfg = .ok r := by
+  unfold processDocG at h ⊢
+  obtain ⟨d1, h1, h⟩ := Out.bind_ok _ _ _ h
+  obtain ⟨d2, h2, h⟩ := Out.bind_ok _ _ _ h
+  rw [h1]; simp only [Out.bind]
+  rw [h2]; simp only [Out.bind]
+  exact mergeStagesG_mono c dict d2 r h
+
+theorem processDocsG_mono (c : Cfg) : ∀ (docs : List Val.KVs) (dict r : Val),
+    processDocsG false c dict docs = .ok r → processDocsG true c dict docs = .ok r
+  | [], _, _, h => h
+  | d :: rest, dict, r, h => by
+    simp only [processDocsG] at h ⊢
+    cases hp : processDocG false c dict d with
+    | ok dict' =>
+      rw [hp] at h
+      rw [processDocG_mono c dict d dict' hp]
+      exact processDocsG_mono c rest dict' r h
+    | err e => rw [hp] at h; cases h
+    | panic e => rw [hp] at h; cases h
+
+theorem loadG_mono (c : Cfg) (docs : List Val.KVs) (m : Val.KVs) (h : loadG false c docs = .ok m) :
+    loadG true c docs = .ok m := by
+  unfold loadG at h ⊢
+  split at h
+  · cases h
+  · rename_i hne
+    simp only [hne, if_false, Bool.false_eq_true]
+    obtain ⟨d1, h1, h⟩ := Out.bind_ok _ _ _ h
+    obtain ⟨d0, h0, h1⟩ := Out.bind_ok _ _ _ h1
+    rw [processDocsG_mono c docs _ d0 h0]; simp only [Out.bind]
+    rw [h1]; simp only [Out.bind]
+    exact h
+
+/-- **interpolation on ⇒ off, on `load` itself**: documents without `$` and without a string on a cast row that load with
+interpolation on load with `SkipInterpolation` to the same model.  (The converse — the direction "whenever the latter
+loads" of the property's `$$` clause — needs in addition that `Canonical` meets no short form it cannot parse: with
+`SkipInterpolation` such a string is kept, with interpolation on it is the error of stage `canonical`.) -/
+theorem load_on_ok_imp_off_ok (c : Cfg) (docs : List Val.KVs) (m : Val.KVs)
+    (h : ∀ d ∈ docs, DollarFree d ∧ NoCastDoc c.interp.table d)
+    (hon : load (withSkip false c) docs = .ok m) : load (withSkip true c) docs = .ok m := by
+  have e1 : load (withSkip false c) docs = loadG false (withSkip false c) docs := load_eq_loadG (withSkip false c) docs
+  have e2 : load (withSkip true c) docs = loadG true (withSkip true c) docs := load_eq_loadG (withSkip true c) docs
+  rw [e2, ← load_on_eq_off true c docs h]
+  exact loadG_mono (withSkip false c) docs m (e1 ▸ hon)
 
 /-! ## non-vacuity -/
 
